@@ -73,6 +73,9 @@ class CompiledFunction:
     source_map: Dict[int, Tuple[int, int]] = field(
         default_factory=dict
     )  # bytecode_pos -> (line, column)
+    global_vars: List[str] = field(
+        default_factory=list
+    )  # Names declared with var by a program (exist, undefined, from its start)
 
 
 @dataclass
@@ -138,9 +141,36 @@ class Compiler:
                 self._compile_statement(stmt)
                 self._hoisted.add(id(stmt))
 
+    def _program_var_names(self, body: List[Node]) -> List[str]:
+        """Names a program declares with var or as function declarations.
+
+        Nested functions keep their own.  Iterative, so that deeply nested
+        blocks and literals do not exhaust the host stack.
+        """
+        names = set()
+        stack = list(body)
+        while stack:
+            node = stack.pop()
+            if isinstance(node, (FunctionExpression, ArrowFunctionExpression)):
+                continue
+            if isinstance(node, FunctionDeclaration):
+                names.add(node.id.name)
+                continue
+            if isinstance(node, VariableDeclaration):
+                for decl in node.declarations:
+                    names.add(decl.id.name)
+            for value in node.__dict__.values():
+                if isinstance(value, Node):
+                    stack.append(value)
+                elif isinstance(value, list):
+                    stack.extend(v for v in value if isinstance(v, Node))
+        return sorted(names)
+
     def compile(self, node: Program) -> CompiledFunction:
         """Compile a program to bytecode."""
         body = node.body
+        # var declarations are hoisted: the names exist from the start
+        declared = self._program_var_names(body)
         self._hoist_function_declarations(body)
 
         # Compile all statements except the last one
@@ -164,6 +194,7 @@ class Compiler:
             locals=self.locals,
             num_locals=len(self.locals),
             source_map=self.source_map,
+            global_vars=declared,
         )
 
     # Opcodes that use 16-bit arguments (jumps and jump-like)
